@@ -118,7 +118,22 @@ def gen_obj(cls, rng, mode, depth, pool, max_depth, only=None):
             c, v = a.split(".")[:2]
             if (int(c), int(v)) not in declared:
                 extra.append(a)
+        if defs and rng.random() < 0.5:
+            # … and "near misses" of a declared one: the same code under vendor ids beyond 16 bits (the library's own vendor
+            # table has 81000 and 16777216), the neighbouring code under vendor 65536, code and vendor swapped, high bits set --
+            # pairs that a sloppy look-up key would confuse with the declared pair
+            d0 = rng.choice(defs)
+            c0, v0 = d0.avp_code, d0.vendor_id
+            for (c, v) in rng.sample([(c0, v0 + 65536), (c0 - 1, 65536), (c0, 81000), (c0, 16777216), (c0, 4294967295), (c0 | (1 << 24), v0),
+                                      (v0, c0), (c0, v0 ^ 0x80000000), ((c0 + (v0 >> 16)) & 0xffffffff, v0 & 0xffff)], 2):
+                if c > 0 and 0 <= v <= 0xffffffff and (c, v) not in declared and A_dict_entry(c, v) is None:
+                    extra.append(f"{c}.{v}.{128 if v else 0}.{rng.randrange(1 << 32):08x}")
     return ("O", cid, fields, extra)
+
+
+def A_dict_entry(c: int, v: int):
+    from diameter.message.avp import avp as _A
+    return _A.get_avp_dictionary_entry(c, v)
 
 
 def fval_str(ast) -> str:
